@@ -10,6 +10,15 @@ checks are run, and every exit code other than 0 is a false alarm.
   elsedrop  if c: ..return  else: REST  -> if c: ..return ; REST
   posargs   f(p=a, q=b)                 -> f(a, b) when the keywords are a prefix of the signature
   commute   a + b, a * b                -> b + a, b * a                           (exactly commutative for two floating-point / array operands)
+  kwsort    f(x, b=1, a=2)              -> f(x, a=2, b=1)                         (keyword values without calls: no evaluation-order effect)
+  tupleassign  a = X; b = Y             -> a, b = X, Y                            (adjacent, single name targets, Y does not read a)
+  withmerge with A: with B: BODY        -> with A, B: BODY
+  demorgan  if a and b / a or b         -> if not (not a or not b) / not (not a and not b)
+  guardsplit  if a and b: BODY          -> if a: if b: BODY                       (no else)
+  comp2loop x = [E for v in IT if c]    -> x = []; for v in IT: if c: x.append(E) (comprehension variable renamed: it becomes a function local)
+  loop2comp x = []; for v in IT: x.append(E) -> x = [E for v in IT]               (v not used outside the loop)
+  stmt2ifexp  if c: x = A else: x = B   -> x = A if c else B
+  cmpflip   a < b, a == b               -> b > a, b == a
 """
 import ast, os, sys, copy
 sys.path.insert(0, "/verif")
@@ -205,6 +214,205 @@ class PosArgs(ast.NodeTransformer):
         return n
 
 
+def _pure(e):
+    return not any(isinstance(x, (ast.Call, ast.Yield, ast.Await, ast.NamedExpr, ast.Subscript)) for x in ast.walk(e))
+
+
+class KwSort(ast.NodeTransformer):
+    def __init__(self):
+        self.n = 0
+
+    def visit_Call(self, n):
+        self.generic_visit(n)
+        if len(n.keywords) > 1 and all(k.arg is not None for k in n.keywords) and all(_pure(k.value) for k in n.keywords):
+            new = sorted(n.keywords, key=lambda k: k.arg)
+            if [k.arg for k in new] != [k.arg for k in n.keywords]:
+                n.keywords = new
+                self.n += 1
+        return n
+
+
+class _Blocks(ast.NodeTransformer):
+    """base: apply self._block to every statement list"""
+    def __init__(self):
+        self.n = 0
+
+    def generic_visit(self, node):
+        super().generic_visit(node)
+        for f in ("body", "orelse", "finalbody"):
+            sub = getattr(node, f, None)
+            if isinstance(sub, list) and sub and isinstance(sub[0], ast.stmt) and not isinstance(node, (ast.ClassDef, ast.Module)):
+                setattr(node, f, self._block(sub))
+        return node
+
+
+class TupleAssign(_Blocks):
+    def _block(self, stmts):
+        out = []
+        i = 0
+        while i < len(stmts):
+            a = stmts[i]
+            b = stmts[i + 1] if i + 1 < len(stmts) else None
+            ok = lambda s_: isinstance(s_, ast.Assign) and len(s_.targets) == 1 and isinstance(s_.targets[0], ast.Name) and not isinstance(s_.value, (ast.Tuple, ast.Starred, ast.Yield))
+            if b is not None and ok(a) and ok(b) and a.targets[0].id != b.targets[0].id and \
+                    not any(isinstance(x, ast.Name) and x.id == a.targets[0].id for x in ast.walk(b.value)) and not any(isinstance(x, (ast.Lambda, ast.NamedExpr)) for x in ast.walk(b.value)):
+                out.append(ast.copy_location(ast.Assign(targets=[ast.Tuple(elts=[a.targets[0], b.targets[0]], ctx=ast.Store())],
+                                                        value=ast.Tuple(elts=[a.value, b.value], ctx=ast.Load())), a))
+                self.n += 1
+                i += 2
+            else:
+                out.append(a)
+                i += 1
+        return out
+
+
+class WithMerge(ast.NodeTransformer):
+    def __init__(self):
+        self.n = 0
+
+    def visit_With(self, n):
+        self.generic_visit(n)
+        if len(n.body) == 1 and isinstance(n.body[0], ast.With):
+            inner = n.body[0]
+            n.items = n.items + inner.items
+            n.body = inner.body
+            self.n += 1
+        return n
+
+
+class DeMorgan(ast.NodeTransformer):
+    def __init__(self):
+        self.n = 0
+
+    def visit_If(self, n):
+        self.generic_visit(n)
+        t = n.test
+        if isinstance(t, ast.BoolOp):
+            other = ast.Or() if isinstance(t.op, ast.And) else ast.And()
+            n.test = ast.UnaryOp(op=ast.Not(), operand=ast.BoolOp(op=other, values=[ast.UnaryOp(op=ast.Not(), operand=v) for v in t.values]))
+            self.n += 1
+        return n
+
+
+class GuardSplit(ast.NodeTransformer):
+    def __init__(self):
+        self.n = 0
+
+    def visit_If(self, n):
+        self.generic_visit(n)
+        t = n.test
+        if isinstance(t, ast.BoolOp) and isinstance(t.op, ast.And) and not n.orelse:
+            inner = ast.copy_location(ast.If(test=t.values[-1], body=n.body, orelse=[]), n)
+            n.test = t.values[0] if len(t.values) == 2 else ast.BoolOp(op=ast.And(), values=t.values[:-1])
+            n.body = [inner]
+            self.n += 1
+        return n
+
+
+class _Ren(ast.NodeTransformer):
+    def __init__(self, m):
+        self.m = m
+
+    def visit_Name(self, n):
+        if n.id in self.m:
+            return ast.copy_location(ast.Name(id=self.m[n.id], ctx=n.ctx), n)
+        return n
+
+
+class Comp2Loop(_Blocks):
+    def _block(self, stmts):
+        out = []
+        for s in stmts:
+            v = s.value if isinstance(s, ast.Assign) and len(s.targets) == 1 and isinstance(s.targets[0], ast.Name) else None
+            if isinstance(v, ast.ListComp) and len(v.generators) == 1 and not v.generators[0].is_async and \
+                    not any(isinstance(x, (ast.Lambda, ast.ListComp, ast.GeneratorExp, ast.DictComp, ast.SetComp, ast.NamedExpr)) for x in ast.walk(v.elt)) and \
+                    not any(isinstance(x, ast.Name) and x.id == s.targets[0].id for x in ast.walk(v)):
+                g = v.generators[0]
+                self.n += 1
+                m = {x.id: "_c%d_%s" % (self.n, x.id) for x in ast.walk(g.target) if isinstance(x, ast.Name)}
+                tgt = _Ren(m).visit(copy.deepcopy(g.target))
+                for x in ast.walk(tgt):
+                    if isinstance(x, (ast.Name, ast.Tuple, ast.List)):
+                        x.ctx = ast.Store()
+                elt = _Ren(m).visit(copy.deepcopy(v.elt))
+                name = s.targets[0].id
+                body = [ast.Expr(value=ast.Call(func=ast.Attribute(value=ast.Name(id=name, ctx=ast.Load()), attr="append", ctx=ast.Load()), args=[elt], keywords=[]))]
+                for c in reversed(g.ifs):
+                    body = [ast.If(test=_Ren(m).visit(copy.deepcopy(c)), body=body, orelse=[])]
+                out.append(ast.copy_location(ast.Assign(targets=[ast.Name(id=name, ctx=ast.Store())], value=ast.List(elts=[], ctx=ast.Load())), s))
+                out.append(ast.copy_location(ast.For(target=tgt, iter=g.iter, body=body, orelse=[]), s))
+            else:
+                out.append(s)
+        return out
+
+
+class Loop2Comp(ast.NodeTransformer):
+    def __init__(self):
+        self.n = 0
+
+    def visit_FunctionDef(self, fn):
+        self.generic_visit(fn)
+        self._fn = fn
+        fn.body = self._walk(fn.body, fn)
+        return fn
+
+    def _walk(self, stmts, fn):
+        out = []
+        i = 0
+        while i < len(stmts):
+            a = stmts[i]
+            b = stmts[i + 1] if i + 1 < len(stmts) else None
+            done = False
+            if isinstance(a, ast.Assign) and len(a.targets) == 1 and isinstance(a.targets[0], ast.Name) and isinstance(a.value, ast.List) and not a.value.elts \
+                    and isinstance(b, ast.For) and not b.orelse and len(b.body) == 1 and isinstance(b.body[0], ast.Expr) and isinstance(b.body[0].value, ast.Call):
+                c = b.body[0].value
+                name = a.targets[0].id
+                if isinstance(c.func, ast.Attribute) and c.func.attr == "append" and isinstance(c.func.value, ast.Name) and c.func.value.id == name and len(c.args) == 1 and not c.keywords:
+                    tv = {x.id for x in ast.walk(b.target) if isinstance(x, ast.Name)}
+                    outside = [x for s_ in fn.body for x in ast.walk(s_) if isinstance(x, ast.Name) and x.id in tv]
+                    inside = [x for x in ast.walk(b) if isinstance(x, ast.Name) and x.id in tv]
+                    uses_acc = any(isinstance(x, ast.Name) and x.id == name for x in ast.walk(c.args[0])) or any(isinstance(x, ast.Name) and x.id == name for x in ast.walk(b.iter))
+                    if len(outside) == len(inside) and not uses_acc and not any(isinstance(x, (ast.Yield, ast.Await, ast.NamedExpr)) for x in ast.walk(b)):
+                        out.append(ast.copy_location(ast.Assign(targets=[a.targets[0]], value=ast.ListComp(elt=c.args[0], generators=[ast.comprehension(target=b.target, iter=b.iter, ifs=[], is_async=0)])), a))
+                        self.n += 1
+                        i += 2
+                        done = True
+            if not done:
+                for f in ("body", "orelse", "finalbody"):
+                    sub = getattr(a, f, None)
+                    if isinstance(sub, list) and sub and isinstance(sub[0], ast.stmt) and not isinstance(a, (ast.FunctionDef, ast.ClassDef)):
+                        setattr(a, f, self._walk(sub, fn))
+                out.append(a)
+                i += 1
+        return out
+
+
+class Stmt2IfExp(ast.NodeTransformer):
+    def __init__(self):
+        self.n = 0
+
+    def visit_If(self, n):
+        self.generic_visit(n)
+        if len(n.body) == 1 and len(n.orelse) == 1 and all(isinstance(s_, ast.Assign) and len(s_.targets) == 1 and isinstance(s_.targets[0], ast.Name) for s_ in (n.body[0], n.orelse[0])) \
+                and n.body[0].targets[0].id == n.orelse[0].targets[0].id:
+            self.n += 1
+            return ast.copy_location(ast.Assign(targets=[n.body[0].targets[0]], value=ast.IfExp(test=n.test, body=n.body[0].value, orelse=n.orelse[0].value)), n)
+        return n
+
+
+class CmpFlip(ast.NodeTransformer):
+    def __init__(self):
+        self.n = 0
+
+    def visit_Compare(self, n):
+        self.generic_visit(n)
+        flip = {ast.Lt: ast.Gt, ast.Gt: ast.Lt, ast.LtE: ast.GtE, ast.GtE: ast.LtE, ast.Eq: ast.Eq, ast.NotEq: ast.NotEq}
+        if len(n.ops) == 1 and type(n.ops[0]) in flip and _pure(n.left) and _pure(n.comparators[0]):
+            self.n += 1
+            return ast.copy_location(ast.Compare(left=n.comparators[0], ops=[flip[type(n.ops[0])]()], comparators=[n.left]), n)
+        return n
+
+
 def transform(text, kind, sigs):
     tree = ast.parse(text)
     if kind == "ifswap":
@@ -233,14 +441,22 @@ def transform(text, kind, sigs):
         t = PosArgs(sigs)
         tree = t.visit(tree)
         n = t.n
+    elif kind in SIMPLE:
+        t = SIMPLE[kind]()
+        tree = t.visit(tree)
+        n = t.n
     else:
         raise SystemExit("unknown transformation " + kind)
     ast.fix_missing_locations(tree)
     return ast.unparse(tree) + "\n", n
 
 
+SIMPLE = {"kwsort": KwSort, "tupleassign": TupleAssign, "withmerge": WithMerge, "demorgan": DeMorgan, "guardsplit": GuardSplit, "comp2loop": Comp2Loop,
+          "loop2comp": Loop2Comp, "stmt2ifexp": Stmt2IfExp, "cmpflip": CmpFlip}
+
+
 def main():
-    kinds = sys.argv[1:] or ["ifswap", "kwargs", "posargs", "temps", "rettemp", "elsedrop", "commute"]
+    kinds = sys.argv[1:] or ["ifswap", "kwargs", "posargs", "temps", "rettemp", "elsedrop", "commute"] + sorted(SIMPLE)
     known = {k["key"] for k in load_known() if k.get("status") == "known"}
     sigs = package_signatures()
     paths = []
